@@ -357,6 +357,9 @@ def run_case(case, prop) -> Dict[str, Any]:
         out["aborted"] += 1
         st["fault_" + f["kind"]] = st.get("fault_" + f["kind"], 0) + 1
         st["fault_at_" + f["func"]] = st.get("fault_at_" + f["func"], 0) + 1
+        if sp.get("slow"):
+            # (fault runs in which one healthy simulator answers every request 30 s late)
+            st["fault_with_slow_simulator"] = st.get("fault_with_slow_simulator", 0) + 1
         fr = next(h for h in r.hist if h[0] == "fault")
         if fr[5] > 0:
             st["faults_fired_with_work_in_flight"] = st.get("faults_fired_with_work_in_flight", 0) + 1
